@@ -4,6 +4,7 @@
 mod calendar;
 mod cli;
 mod convert;
+mod flow;
 mod order;
 mod pep440;
 mod render;
@@ -28,6 +29,8 @@ fn main() {
         ("record", "calendar") => calendar::record(rest),
         ("replay", "convert") => convert::replay(rest),
         ("record", "convert") => convert::record(rest),
+        ("replay", "flow") => flow::replay(rest),
+        ("record", "flow") => flow::record(rest),
         ("replay", "render") => render::replay(rest),
         ("record", "render") => render::record(rest),
         ("replay", "zerv") => zmodel::replay(rest),
